@@ -38,20 +38,26 @@ class Pool:
         self.files = {}
         spec = {"A": ("a", "logo.png", "sample1.png"), "B": ("b", "logo.png", "sample2.png"),
                 "C": ("c", "pic.png", "sample1.png"), "D": ("d", "sample3.png", "sample3.png"),
-                "E": ("e", "sample4.png", "sample4.png"), "F": ("f", "pic.png", "sample4.png")}
+                "E": ("e", "sample4.png", "sample4.png"), "F": ("f", "pic.png", "sample4.png"),
+                "H": ("h", "logo #2.png", "sample4.png"), "W": ("w", "photo.webpic", "sample4.png")}
         for tok, (sub, name, src) in spec.items():
             d = os.path.join(tmp, "pool", sub)
             os.makedirs(d, exist_ok=True)
             path = os.path.join(d, name)
             shutil.copyfile(os.path.join(IMAGES, src), path)
             with open(path, "rb") as f:
-                self.files[tok] = {"path": path, "nm": name, "dg": media_view.token(f.read())}
+                data = f.read()
+            # size of a PNG: IHDR width and height (big endian) at bytes 16..24; a one-cell anchor made by new_image
+            # has the picture's pixel size at 9525 EMU per pixel
+            w, h = int.from_bytes(data[16:20], "big"), int.from_bytes(data[20:24], "big")
+            self.files[tok] = {"path": path, "nm": name, "nk": media_view.name_kind(name), "dg": media_view.token(data),
+                               "ext": [w * 9525, h * 9525]}
 
     def step(self, st):
         """AddImage / ChangeImage steps name a file token: give the driver the path and the judge what the file is"""
         st = dict(st)
         f = self.files[st.pop("f")]
-        st.update(path=f["path"], nm=f["nm"], dg=f["dg"])
+        st.update(path=f["path"], nm=f["nm"], nk=f["nk"], dg=f["dg"], ext=f["ext"])
         return st
 
 
@@ -217,6 +223,10 @@ def kf_exemplars(pool):
         [{"a": "Init", "src": {"kind": "new", "sheets": ["My-Data", "S1", "My Data(2)"]}},
          {"a": "AddChart", "s": 2, "ch": chart_over("My Data(2)")}, {"a": "Reload", "lazy": False},
          {"a": "AddChart", "s": 2, "ch": chart_over("My-Data")}, {"a": "Reload", "lazy": False}],
+        # KF5: a picture file with a '#' in its name;  KF6: a picture file with an extension unknown to the writer
+        [new, pool.step({"a": "AddImage", "s": 2, "f": "H", "r": 2, "c": 2}), pool.step({"a": "AddImage", "s": 3, "f": "D", "r": 2, "c": 2}),
+         {"a": "Reload", "lazy": False}, {"a": "Reload", "lazy": True}, {"a": "Reload", "lazy": False}],
+        [new, pool.step({"a": "AddImage", "s": 2, "f": "W", "r": 2, "c": 2}), {"a": "Reload", "lazy": False}],
     ]
 
 
@@ -244,7 +254,7 @@ def gen_cases(chk, pool):
             steps, ns = expand(pool, rp)
             cases.append({"steps": closed(steps), "kind": "tlc-path", "setup": ns})
     n1b = len(cases)
-    nsim = 250 if quick else 3000
+    nsim = 900 if quick else 6000
     rs = vlib.run_tlc("MC_Media", "MC_Media_sim.cfg", workers=1, coverage=False, simulate=f"num={nsim}",
                       extra=["-depth", "14", "-seed", str(chk.seed)], timeout=3000)
     if rs.rc != 0 or rs.violation or not rs.replays:
@@ -258,7 +268,7 @@ def gen_cases(chk, pool):
         steps, ns = expand(pool, rp)
         cases.append({"steps": closed(steps), "kind": "tlc-sim", "setup": ns})
     n2 = len(cases)
-    cases += limit_cases(pool, rng, 120 if quick else 1500)
+    cases += limit_cases(pool, rng, 300 if quick else 2500)
     n3 = len(cases)
     cases += corpus_cases(pool, chk, rng)
     chk.extra["cases"] = {"finding_exemplars": n0, "tlc_paths_depth1": n1 - n0, "tlc_paths_depth2": n1b - n1,
@@ -299,6 +309,10 @@ def judge(chk, cases, tmp):
         views = {p: _view(p) for p in paths}
     for evs in events:
         for e in evs:
+            # (classification of the observed picture names: a function of the name, used by deviation triggers only)
+            for sheet in e.get("obs", []):
+                for im in sheet["imgs"]:
+                    im["nk"] = media_view.name_kind(im["nm"])
             if e.get("a") == "Init":
                 if e["src"]["kind"] == "file":
                     e["exp"] = views[e["src"]["path"]]["sheets"]
@@ -320,6 +334,7 @@ def judge(chk, cases, tmp):
             raise vlib.ToolError(f"generator produced an out-of-contract step (case {cases[ci]['case']} "
                                  f"{json.dumps(cases[ci]['steps'])[:600]}, step {off}): {detail}")
     chk.process_validation(out, cases, events, "media", describe)
+    chk.extra["saves_with_a_raw_sheet_drawing_compared"] = chk.extra.get("saves_with_a_raw_sheet_drawing_compared", 0) + out["notes"]
     return events
 
 
@@ -365,6 +380,8 @@ def run(chk):
         if missing:
             raise vlib.ToolError(f"vacuous run: no generated history uses {sorted(missing)}")
         events = judge(chk, cases, tmp)
+        if not chk.extra.get("saves_with_a_raw_sheet_drawing_compared"):
+            raise vlib.ToolError("vacuous run: no save compared the drawing of a still-raw sheet with the loaded file (P5)")
         return cases, events
     cases, events = with_tmp(body)
     chk.evaluations = len(cases)
